@@ -626,8 +626,8 @@ func main() {
 		return
 	}
 	r := run.Rand
-	nHist := run.Scale(3, 14)
-	perHist := run.Scale(8, len(finalKinds))
+	nHist := run.Scale(6, 40)
+	perHist := len(finalKinds)
 	ki := int(run.Seed) * 5
 	for h := 0; h < nHist; h++ {
 		for i := 0; i < perHist; i++ {
